@@ -30,8 +30,28 @@ func runC15(c *Ctx, r *Report) {
 	eof, eol := c.tokenConst("EOF"), c.tokenConst("EOL")
 
 	// ---- R1 pairing ----
+	// a pure predicate method (receiver only, boolean result, no store) is part of its callers: its token tests
+	// count for them, and it carries no obligation of its own
+	isPredicate := func(f *ssa.Function) bool {
+		if f == nil || f.Blocks == nil || len(f.Params) != 1 || f.Signature.Results().Len() != 1 {
+			return false
+		}
+		if bt, ok := f.Signature.Results().At(0).Type().Underlying().(*types.Basic); !ok || bt.Kind() != types.Bool {
+			return false
+		}
+		pure := true
+		eachInstr(f, func(in ssa.Instruction) {
+			switch in.(type) {
+			case *ssa.Store, *ssa.MapUpdate, *ssa.Defer, *ssa.Panic:
+				pure = false
+			}
+		})
+		return pure
+	}
+	allTests := map[*ssa.Function]map[string]map[int64]ssa.Instruction{}
 	for _, fn := range pi.funcs {
 		tests := map[string]map[int64]ssa.Instruction{"cur": {}, "peek": {}}
+		allTests[fn] = tests
 		eachInstr(fn, func(in ssa.Instruction) {
 			switch x := in.(type) {
 			case *ssa.Call:
@@ -65,6 +85,30 @@ func runC15(c *Ctx, r *Report) {
 						tests["cur"][k] = in
 					case pi.isFieldAddr(ld.X, pi.peekIdx):
 						tests["peek"][k] = in
+					}
+				}
+			}
+		})
+	}
+	for _, fn := range pi.funcs {
+		if isPredicate(fn) {
+			continue
+		}
+		tests := map[string]map[int64]ssa.Instruction{"cur": {}, "peek": {}}
+		for w, m := range allTests[fn] {
+			for k, in := range m {
+				tests[w][k] = in
+			}
+		}
+		eachInstr(fn, func(in ssa.Instruction) {
+			if call, ok := in.(*ssa.Call); ok {
+				if callee := call.Common().StaticCallee(); callee != nil && isPredicate(callee) {
+					for w, m := range allTests[callee] {
+						for k := range m {
+							if _, has := tests[w][k]; !has {
+								tests[w][k] = in
+							}
+						}
 					}
 				}
 			}
